@@ -24,41 +24,32 @@ PROPS = {
 }
 
 MODE = {"C17": "store", "C16": "coord", "C40": "tools"}
-TOPICS, GROUPS = ["u", "t:u", "t/u"], ["g", "g:t", "g/x"]
-TOOLS = ["cluster_status", "cluster_metrics", "list_topics", "describe_topics", "list_groups", "describe_group", "fetch_offsets", "describe_configs"]
-SHAPES = ["none", "known", "unknown", "special", "empty", "many"]
+import importlib.util as _ilu
+_spec = _ilu.spec_from_file_location("verif_store_mkcfgs", os.path.join(os.path.dirname(os.path.abspath(__file__)), "mkcfgs.py"))
+K = _ilu.module_from_spec(_spec); _spec.loader.exec_module(K)   # name domains, tool names and the cfg generator (single source)
+DOMAINS, TOOLS, SHAPES = K.DOMAINS, K.TOOLS, K.SHAPES
 TOOL_INIT = [["u", 2], ["t:u", 1], ["t/u", 3]]
 CFG = {  # mode -> harness/model parameters
     "store": dict(parts=3, pkg="./pkg/metadata/", target="pkg/metadata/zz_verif_store_test.go", src="store_verif_test.go", test="TestVerifStoreReplay",
                   mc="MC_Store_%s.cfg", sim="Sim_Store.cfg", depth=14, num=(100, 600),
                   devs={"KeyAliasing": "C17_SameObs", "DeleteKeepsOffsets": "C17_SameObs", "CloneDropsTimeouts": "C17_SameObs",
-                        "EtcdListOmitsSlash": "C17_SameObs", "EtcdPartsOrder": "C17_SameObs"}),
+                        "EtcdListOmitsSlash": "C17_SameObs", "EtcdPartsOrder": "C17_SameObs",
+                        "StoreEscapeFastPath": "C17_SameObs", "EtcdDeletePrefix": "C17_SameObs"}),
     "coord": dict(parts=2, pkg="./pkg/broker/", target="pkg/broker/zz_verif_store_coord_test.go", src="coord_verif_test.go", test="TestVerifStoreCoordReplay",
                   mc="MC_Store_coord_%s.cfg", sim="Sim_Store_coord.cfg", depth=10, num=(50, 250),
-                  devs={"FetchDefaultZero": "C16_NeverCommitted", "CoordKeyAliasing": "C16_Isolation", "CommitUnchecked": "C16_ReadBack"}),
+                  devs={"FetchDefaultZero": "C16_NeverCommitted", "CoordKeyAliasing": "C16_Isolation", "CommitUnchecked": "C16_ReadBack",
+                        "CoordEscapeFastPath": "C16_Isolation"}),
     "tools": dict(parts=2, pkg="./internal/mcpserver/", target="internal/mcpserver/zz_verif_store_tools_test.go", src="tools_verif_test.go", test="TestVerifStoreToolsReplay",
                   mc="MC_Store_tools_%s.cfg", sim="Sim_Store_tools.cfg", depth=12, num=(25, 100),
-                  devs={"ToolWrites": "C40_Unchanged"}),
+                  devs={"ToolWrites": "C40_Unchanged", "ToolReaps": "C40_Unchanged"}),
 }
-DEV_FLAGS = ["DevKeyAliasing", "DevDeleteKeepsOffsets", "DevCloneDropsTimeouts", "DevEtcdListOmitsSlash", "DevEtcdPartsOrder",
-             "DevFetchDefaultZero", "DevCommitUnchecked", "DevToolWrites"]
-# Shapes of the tree the conformance layer knows: the repaired design (fix patches applied; the two recorded etcd list
-# findings are part of it) and the pinned tree (every defect confirmed by this module switched on).
-SHAPE_FLAGS = {
-    "repaired": {"DevEtcdListOmitsSlash"},
-    "pinned": {"DevEtcdListOmitsSlash", "DevKeyAliasing", "DevDeleteKeepsOffsets", "DevCloneDropsTimeouts", "DevEtcdPartsOrder", "DevFetchDefaultZero"},
-}
+# The tree shape the conformance layer validates against: the repaired design (the fix patches of this module are applied in
+# /repo) plus the two recorded etcd list findings, which are part of the tree as it is.
+SHAPE_FLAGS = {"repaired": ["DevEtcdListOmitsSlash"]}
 
 
-def trace_cfg(parts, shape):
-    on = SHAPE_FLAGS[shape]
-    lines = ["CONSTANTS", ' Topics = {"u","t:u","t/u"}', ' Groups = {"g","g:t","g/x"}', ' ColonNames = {"t:u","g:t"}', ' SlashNames = {"t/u","g/x"}',
-             " MaxParts = %d" % parts, " Offs = {0,1,2}", ' Metas = {"","m"}', " Variants = {1,2}", " TimeoutVariants = {1}", " CfgVariants = {1,2}",
-             " ToolNames = {%s}" % ",".join('"%s"' % t for t in TOOLS), " ToolShapes = {%s}" % ",".join('"%s"' % s for s in SHAPES),
-             " InitTopics <- NoTopics", " MaxOps = 1000000"]
-    lines += [" %s = %s" % (f, "TRUE" if f in on else "FALSE") for f in DEV_FLAGS]
-    lines += ["INIT TInit", "NEXT TNext", "POSTCONDITION Reached", "CHECK_DEADLOCK FALSE"]
-    return "\n".join(lines) + "\n"
+def trace_cfg(mode, shape):
+    return "\n".join(K.trace_lines(mode, SHAPE_FLAGS[shape])) + "\n"
 
 
 def harness(ctx, mode, scheds, tag):
@@ -85,7 +76,8 @@ def split(rows):
 
 def mk_sched(mode, steps):
     c = CFG[mode]
-    s = {"topics": TOPICS, "groups": GROUPS, "parts": c["parts"], "steps": list(steps)}
+    dm = DOMAINS[mode]
+    s = {"topics": dm["topics"], "groups": dm["groups"], "parts": dm["parts"], "steps": list(steps)}
     if mode == "store":
         # every sequence ends with the two list operations and the full read-back (all three are Store.tla steps)
         tail = [x["a"] for x in s["steps"][-3:]]
@@ -150,11 +142,16 @@ def check(ctx, prop):
         scheds.append(mk_sched(mode, h)); labels.append("dev:" + dev)
     ndev = len(scheds)
     if mode == "tools":  # every (tool, shape) pair of the model's constants, enumerated by TLC (one-step behaviours), after a populated prefix
-        cov_hs, _ = T.simulate_hists(ctx, d, "MC_Store.tla", "Sim_Store_tools.cfg", num=12, depth=8, seed=ctx.seed + 1000)
+        cov_hs, _ = T.simulate_hists(ctx, d, "MC_Store.tla", "Sim_Store_tools.cfg", num=40, depth=10, seed=ctx.seed + 1000)
         writes = [x for h in cov_hs for x in h if x["a"] != "Tool"]
-        prefix = [x for kind in ("UpdateOffsets", "UpdateConfig", "Commit", "PutGroup") for x in [y for y in writes if y["a"] == kind][:3]]
-        if not any(x["a"] == "PutGroup" for x in prefix) or not any(x["a"] == "Commit" for x in prefix):
-            raise Broken("cover schedule: the simulated behaviours contain no PutGroup/Commit to populate the stores with")
+        prefix = [x for kind in ("UpdateOffsets", "UpdateConfig", "Commit") for x in [y for y in writes if y["a"] == kind][:3]]
+        gseen = {}
+        for x in writes:  # one stored group per variant (variant 3 = dead and memberless), on different groups
+            if x["a"] == "PutGroup" and x["v"] not in gseen.values() and x["g"] not in gseen:
+                gseen[x["g"]] = x["v"]
+                prefix.append(x)
+        if sorted(gseen.values()) != [1, 2, 3] or not any(x["a"] == "Commit" for x in prefix):
+            raise Broken("cover schedule: the simulated behaviours do not store every group variant / a commit (got %s)" % gseen)
         r = T.tlc(ctx, d, "MC_Store.tla", "Cover_Store_tools.cfg", workers=1, timeout=600, deadlock_off=True)
         pairs = sorted({(h[0]["name"], h[0]["shape"]) for h in r.prints.get("SCHED", []) if len(h) == 1 and h[0]["a"] == "Tool"})
         if len(pairs) != len(TOOLS) * len(SHAPES):
@@ -180,8 +177,8 @@ def check(ctx, prop):
     violations = classify(prop, rows, runs, scheds, labels, viol)
     # layer C: first against the repaired design, then against the pinned-tree shape (named deviations switched on)
     conf = {"shape": None, "reached": 0, "total": len(rows), "first_rejection": None}
-    for shape in ("repaired", "pinned"):
-        reached, total, _ = layers.conform(ctx, DIR, "Trace_Store.tla", "Trace_Store.cfg", rows, name="conf-" + shape, cfg_text=trace_cfg(c["parts"], shape), timeout=1800)
+    for shape in sorted(SHAPE_FLAGS):
+        reached, total, _ = layers.conform(ctx, DIR, "Trace_Store.tla", "Trace_Store.cfg", rows, name="conf-" + shape, cfg_text=trace_cfg(mode, shape), timeout=1800)
         if reached == total:
             conf.update(shape=shape, reached=reached)
             break
@@ -192,7 +189,7 @@ def check(ctx, prop):
     level = "model_checking"
     if drift and not violations:
         level = "exploration"
-        ctx.log("DRIFT: conformance layer rejected the trace under both tree shapes although the property held: " + json.dumps(conf["first_rejection"])[:600])
+        ctx.log("DRIFT: conformance layer rejected the trace although the property held: " + json.dumps(conf["first_rejection"])[:600])
     cov = {
         "states": mc.distinct, "transitions": mc.generated, "depth": mc.depth, "exhaustive": True, "model_config": c["mc"] % ctx.tier,
         "traces_validated_against_impl": len(runs), "trace_events": len(rows), "evaluations": len(scheds),
@@ -342,8 +339,8 @@ def self_test(ctx, mode, runs, c):
     if not any(v[1].startswith(want) for v in viol):
         raise Broken("binding self-test: observation layer did not flag a corrupted observation (%s)" % want)
     rejected = False
-    for shape in ("repaired", "pinned"):
-        reached, total, _ = layers.conform(ctx, DIR, "Trace_Store.tla", "Trace_Store.cfg", badc, name="selfC-" + shape, cfg_text=trace_cfg(c["parts"], shape))
+    for shape in sorted(SHAPE_FLAGS):
+        reached, total, _ = layers.conform(ctx, DIR, "Trace_Store.tla", "Trace_Store.cfg", badc, name="selfC-" + shape, cfg_text=trace_cfg(mode, shape))
         rejected = reached < total
         if not rejected:
             break
